@@ -466,3 +466,586 @@ Proof.
     destruct (m_exp e <? now); [reflexivity|]. destruct (m_upd p <? now); reflexivity.
   - intros k Hne. rewrite Hst, st_merge_lookup, Hide. destruct (decide _); [contradiction|reflexivity].
 Qed.
+
+(* ---------- GC ---------- *)
+
+Definition live (now : Z) (s : gmap string msil) (k : string) : bool :=
+  match s !! k with Some e => now <? m_exp e | None => false end.
+
+Lemma bd_cons_eq (id : string) l : bool_decide (id ∈ id :: l) = true.
+Proof. apply bool_decide_eq_true_2. left. Qed.
+Lemma bd_cons_ne (k id : string) l : k <> id -> bool_decide (k ∈ id :: l) = bool_decide (k ∈ l).
+Proof.
+  intros Hne. destruct (bool_decide (k ∈ l)) eqn:Hb.
+  - apply bool_decide_eq_true in Hb. apply bool_decide_eq_true_2. right. exact Hb.
+  - apply bool_decide_eq_false in Hb. apply bool_decide_eq_false_2.
+    intros Hin. apply elem_of_cons in Hin as [?|?]; contradiction.
+Qed.
+
+Definition gc_dead (now : Z) (s : gmap string msil) (ids : list string) (k : string) : bool :=
+  bool_decide (k ∈ ids) && negb (live now s k).
+
+Lemma gc_fold_spec now l : forall s m v n err,
+  (forall k e, s !! k = Some e -> m_id e = k) ->
+  let '(s', m', v', n', err') := foldl (gc_step now) (s, m, v, n, err) l in
+  (forall k, s' !! k = if gc_dead now s (map snd l) k then None else s !! k) /\
+  (forall k, m' !! k = if gc_dead now s (map snd l) k && bool_decide (is_Some (s !! k)) then None else m !! k) /\
+  v' = v ++ filter (fun sv => live now s (snd sv) = true) l.
+Proof.
+  induction l as [|[vv id] l IH]; intros s m v n err Hk.
+  - cbn. split; [|split]; [intros k; reflexivity|intros k; reflexivity|rewrite app_nil_r; reflexivity].
+  - cbn [foldl gc_step snd]. destruct (s !! id) as [e|] eqn:He.
+    + destruct (now <? m_exp e) eqn:Hl.
+      * specialize (IH s m (v ++ [(vv, id)]) n err Hk).
+        destruct (foldl _ _ l) as [[[[s' m'] v'] n'] err']. destruct IH as (H1 & H2 & H3).
+        assert (Hlive : live now s id = true) by (unfold live; rewrite He; exact Hl).
+        split; [|split].
+        -- intros k. rewrite H1. unfold gc_dead. cbn [map snd]. destruct (decide (k = id)) as [->|Hne].
+           ++ rewrite bd_cons_eq, Hlive. cbn. rewrite andb_false_r. reflexivity.
+           ++ rewrite bd_cons_ne by exact Hne. reflexivity.
+        -- intros k. rewrite H2. unfold gc_dead. cbn [map snd]. destruct (decide (k = id)) as [->|Hne].
+           ++ rewrite bd_cons_eq, Hlive. cbn. rewrite andb_false_r. reflexivity.
+           ++ rewrite bd_cons_ne by exact Hne. reflexivity.
+        -- rewrite H3, filter_cons. cbn [snd]. destruct (decide _); [|congruence].
+           rewrite <- app_assoc. reflexivity.
+      * assert (Hid : m_id e = id) by (apply (Hk _ _ He)). rewrite Hid.
+        assert (Hk' : forall k e0, delete id s !! k = Some e0 -> m_id e0 = k).
+        { intros k e0 H. apply lookup_delete_Some in H as [_ H]. apply (Hk _ _ H). }
+        specialize (IH (delete id s) (delete id m) v (S n) err Hk').
+        destruct (foldl _ _ l) as [[[[s' m'] v'] n'] err']. destruct IH as (H1 & H2 & H3).
+        assert (Hdead : live now s id = false) by (unfold live; rewrite He; exact Hl).
+        assert (Hdead' : live now (delete id s) id = false) by (unfold live; rewrite lookup_delete; reflexivity).
+        assert (Hlive' : forall k, k <> id -> live now (delete id s) k = live now s k).
+        { intros k Hne. unfold live. rewrite lookup_delete_ne by congruence. reflexivity. }
+        split; [|split].
+        -- intros k. rewrite H1. unfold gc_dead. cbn [map snd]. destruct (decide (k = id)) as [->|Hne].
+           ++ rewrite bd_cons_eq, Hdead, Hdead', lookup_delete. cbn. destruct (bool_decide _); reflexivity.
+           ++ rewrite bd_cons_ne, Hlive', lookup_delete_ne by congruence. reflexivity.
+        -- intros k. rewrite H2. unfold gc_dead. cbn [map snd]. destruct (decide (k = id)) as [->|Hne].
+           ++ rewrite bd_cons_eq, Hdead, Hdead', He, !lookup_delete. cbn.
+              destruct (_ && _); reflexivity.
+           ++ rewrite bd_cons_ne, Hlive', !lookup_delete_ne by congruence. reflexivity.
+        -- rewrite H3, filter_cons. cbn [snd]. destruct (decide _); [congruence|]. f_equal.
+           apply list_filter_iff. intros [v0 k0]. cbn. destruct (decide (k0 = id)) as [->|Hne].
+           ++ rewrite Hdead, Hdead'. reflexivity.
+           ++ rewrite Hlive' by exact Hne. reflexivity.
+    + specialize (IH s m v n true Hk).
+      destruct (foldl _ _ l) as [[[[s' m'] v'] n'] err']. destruct IH as (H1 & H2 & H3).
+      assert (Hdead : live now s id = false) by (unfold live; rewrite He; reflexivity).
+      split; [|split].
+      * intros k. rewrite H1. unfold gc_dead. cbn [map snd]. destruct (decide (k = id)) as [->|Hne].
+        -- rewrite bd_cons_eq, Hdead, He. cbn. destruct (_ && _); reflexivity.
+        -- rewrite bd_cons_ne by exact Hne. reflexivity.
+      * intros k. rewrite H2. unfold gc_dead. cbn [map snd]. destruct (decide (k = id)) as [->|Hne].
+        -- rewrite bd_cons_eq, Hdead, He. cbn. rewrite !andb_false_r. reflexivity.
+        -- rewrite bd_cons_ne by exact Hne. reflexivity.
+      * rewrite H3, filter_cons. cbn [snd]. destruct (decide _); [congruence|]. reflexivity.
+Qed.
+
+Lemma gc_op_spec now S :
+  key_ok S ->
+  (forall k, st (fst (gc_op now S)) !! k = if gc_dead now (st S) (map snd (vi S)) k then None else st S !! k) /\
+  (forall k, mi (fst (gc_op now S)) !! k =
+             if gc_dead now (st S) (map snd (vi S)) k && bool_decide (is_Some (st S !! k)) then None else mi S !! k) /\
+  vi (fst (gc_op now S)) = filter (fun sv => live now (st S) (snd sv) = true) (vi S) /\
+  ver (fst (gc_op now S)) = ver S.
+Proof.
+  intros Hk. unfold gc_op. pose proof (gc_fold_spec now (vi S) (st S) (mi S) [] O false Hk) as H.
+  destruct (foldl _ _ _) as [[[[s' m'] v'] n'] err']. destruct H as (H1 & H2 & H3). cbn. auto.
+Qed.
+
+(* ---------- the bookkeeping invariant ---------- *)
+
+Record Inv (x : ext) (S : store) : Prop := mkInv {
+  inv_key : key_ok S;
+  inv_vi : forall k, is_Some (st S !! k) <-> k ∈ map snd (vi S);
+  inv_mi : forall k, is_Some (mi S !! k) <-> is_Some (st S !! k);
+  inv_nodup : NoDup (map snd (vi S));
+  inv_ver : Forall (fun sv => fst sv <= ver S) (vi S);
+  inv_comp : forall k e, st S !! k = Some e -> compiles x (s_ms (m_sil e)) = true;
+  inv_marshal : forall k e, st S !! k = Some e -> marshal_ok x (m_sil e) = true }.
+
+Lemma Inv_empty x : Inv x empty_store.
+Proof.
+  constructor; unfold empty_store, key_ok; cbn [st mi vi ver].
+  - intros k e H. rewrite lookup_empty in H. discriminate.
+  - intros k. rewrite lookup_empty. split; [intros [? ?]; discriminate|intros H; inversion H].
+  - intros k. rewrite !lookup_empty. split; intros [? ?]; discriminate.
+  - constructor.
+  - constructor.
+  - intros k e H. rewrite lookup_empty in H. discriminate.
+  - intros k e H. rewrite lookup_empty in H. discriminate.
+Qed.
+
+(* GC removes exactly the silences whose ExpiresAt is not after now *)
+Theorem gc_exact x now S k :
+  Inv x S ->
+  st (fst (gc_op now S)) !! k =
+  match st S !! k with Some e => if now <? m_exp e then Some e else None | None => None end.
+Proof.
+  intros HI. destruct (gc_op_spec now S (inv_key _ _ HI)) as (H1 & _). rewrite H1. unfold gc_dead, live.
+  destruct (st S !! k) as [e|] eqn:He.
+  - rewrite bool_decide_eq_true_2 by (apply (inv_vi _ _ HI); rewrite He; eauto). cbn.
+    destruct (now <? m_exp e); reflexivity.
+  - destruct (_ && _); reflexivity.
+Qed.
+
+Theorem gc_preserves_inv x now S : Inv x S -> Inv x (fst (gc_op now S)).
+Proof.
+  intros HI. destruct (gc_op_spec now S (inv_key _ _ HI)) as (H1 & H2 & H3 & H4).
+  assert (Hst : forall k, st (fst (gc_op now S)) !! k =
+                 match st S !! k with Some e => if now <? m_exp e then Some e else None | None => None end)
+    by (intros k; apply (gc_exact x); exact HI).
+  constructor.
+  - intros k e. rewrite Hst. destruct (st S !! k) as [e'|] eqn:He; [|discriminate].
+    destruct (now <? m_exp e'); [|discriminate]. intros [= <-]. apply (inv_key _ _ HI _ _ He).
+  - intros k. rewrite H3, Hst. split.
+    + intros [e He]. destruct (st S !! k) as [e'|] eqn:Hk; [|discriminate].
+      destruct (now <? m_exp e') eqn:Hl; [|discriminate].
+      assert (Hin : k ∈ map snd (vi S)) by (apply (inv_vi _ _ HI); rewrite Hk; eauto).
+      apply elem_of_list_fmap in Hin as ([v k'] & -> & Hin). apply elem_of_list_fmap.
+      exists (v, k'). split; [reflexivity|]. apply elem_of_list_filter. split; [|exact Hin].
+      cbn. unfold live. cbn in Hk. rewrite Hk. exact Hl.
+    + intros Hin. apply elem_of_list_fmap in Hin as ([v k'] & -> & Hin).
+      apply elem_of_list_filter in Hin as [Hl Hin]. cbn in *. unfold live in Hl.
+      destruct (st S !! k') as [e'|]; [|discriminate]. rewrite Hl. eauto.
+  - intros k. rewrite H2, Hst. unfold gc_dead, live.
+    destruct (st S !! k) as [e|] eqn:He.
+    + rewrite bool_decide_eq_true_2 by (apply (inv_vi _ _ HI); rewrite He; eauto).
+      rewrite (bool_decide_eq_true_2 (is_Some (Some e))) by eauto. cbn.
+      destruct (now <? m_exp e); cbn.
+      * rewrite (inv_mi _ _ HI), He. split; eauto.
+      * split; intros [? ?]; discriminate.
+    + rewrite (bool_decide_eq_false_2 (is_Some None)) by (intros [? ?]; discriminate).
+      rewrite andb_false_r. rewrite (inv_mi _ _ HI), He. reflexivity.
+  - rewrite H3. clear -HI. pose proof (inv_nodup _ _ HI) as Hn. revert Hn.
+    generalize (vi S). intros l. induction l as [|[v k] l IH]; cbn; [constructor|].
+    intros Hn. apply NoDup_cons in Hn as [Hnin Hn]. destruct (decide _).
+    + cbn. apply NoDup_cons. split; [|apply IH; exact Hn].
+      intros Hin. apply Hnin. apply elem_of_list_fmap in Hin as (y & -> & Hy).
+      apply elem_of_list_filter in Hy as [_ Hy]. apply elem_of_list_fmap. eauto.
+    + apply IH. exact Hn.
+  - rewrite H3, H4. apply Forall_forall. intros sv Hin. apply elem_of_list_filter in Hin as [_ Hin].
+    pose proof (inv_ver _ _ HI) as Hv. rewrite Forall_forall in Hv. apply Hv. exact Hin.
+  - intros k e. rewrite Hst. destruct (st S !! k) as [e'|] eqn:He; [|discriminate].
+    destruct (now <? m_exp e'); [|discriminate]. intros [= <-]. apply (inv_comp _ _ HI _ _ He).
+  - intros k e. rewrite Hst. destruct (st S !! k) as [e'|] eqn:He; [|discriminate].
+    destruct (now <? m_exp e'); [|discriminate]. intros [= <-]. apply (inv_marshal _ _ HI _ _ He).
+Qed.
+
+(* pending / active silences are never collected when the retention is positive and ExpiresAt = end + retention
+   (a pending silence is assumed to end after it starts: Set never stores another kind that is still pending) *)
+Theorem gc_never_live x c now S k e :
+  Inv x S -> st S !! k = Some e -> m_exp e = s_end (m_sil e) + c_ret c -> 0 < c_ret c ->
+  sil_state (m_sil e) now <> SExpired ->
+  (sil_state (m_sil e) now = SPending -> s_start (m_sil e) <= s_end (m_sil e)) ->
+  st (fst (gc_op now S)) !! k = Some e.
+Proof.
+  intros HI He Hx Hr Hs Hp. rewrite (gc_exact x) by exact HI. rewrite He.
+  assert (now <= s_end (m_sil e)).
+  { destruct (sil_state (m_sil e) now) eqn:E; try contradiction.
+    - specialize (Hp eq_refl). apply sil_state_pending in E. lia.
+    - apply sil_state_active in E. lia. }
+  destruct (now <? m_exp e) eqn:Hl; [reflexivity|lia].
+Qed.
+
+(* ---------- Query ---------- *)
+
+Lemma scan_nofilter x S now skip ids :
+  (skip = true \/ forall k, k ∈ ids -> is_Some (st S !! k)) ->
+  scan x S now [] skip ids = Ok (omap (fun k => m_sil <$> st S !! k) ids).
+Proof.
+  intros H. induction ids as [|k ids IH]; [reflexivity|]. cbn [scan omap].
+  destruct (st S !! k) as [e|] eqn:He; cbn beta; rewrite ?He.
+  - cbn. rewrite He. cbn. rewrite IH; [reflexivity|]. destruct H as [H|H]; [auto|right; intros; apply H; right; assumption].
+  - destruct H as [->|H].
+    + cbn. rewrite He. cbn. apply IH. auto.
+    + destruct (H k ltac:(left)) as [? Hk]. congruence.
+Qed.
+
+Definition in_states (sts : list sstate) (now : Z) (s : silence) : bool := bool_decide (sil_state s now ∈ sts).
+
+Lemma scan_state x S now sts skip ids :
+  (skip = true \/ forall k, k ∈ ids -> is_Some (st S !! k)) ->
+  scan x S now [FState sts] skip ids =
+  Ok (omap (fun k => match st S !! k with
+                     | Some e => if in_states sts now (m_sil e) then Some (m_sil e) else None
+                     | None => None end) ids).
+Proof.
+  intros H. induction ids as [|k ids IH]; [reflexivity|]. cbn [scan].
+  destruct (st S !! k) as [e|] eqn:He.
+  - cbn [passes]. rewrite IH by (destruct H as [H|H]; [auto|right; intros; apply H; right; assumption]).
+    cbn. rewrite He. unfold in_states. destruct (bool_decide _); reflexivity.
+  - destruct H as [->|H].
+    + rewrite IH by auto. cbn. rewrite He. reflexivity.
+    + destruct (H k ltac:(left)) as [? Hk]. congruence.
+Qed.
+
+(* Query by ids returns exactly the stored silences with these ids (in the order asked) *)
+Theorem query_ids_exact x now S id ids :
+  query_op x now S [QIDs (id :: ids)] = RQuery (omap (fun k => m_sil <$> st S !! k) (id :: ids)) (ver S).
+Proof. unfold query_op. cbn [build_query q_ids q_since q_filters app]. rewrite scan_nofilter by auto. reflexivity. Qed.
+
+(* Query by state returns exactly the stored silences that are in one of the states now *)
+Theorem query_state_exact x now S sts :
+  Inv x S ->
+  exists l, query_op x now S [QState sts] = RQuery l (ver S) /\
+    forall s, s ∈ l <-> exists k e, st S !! k = Some e /\ m_sil e = s /\ sil_state s now ∈ sts.
+Proof.
+  intros HI. unfold query_op. cbn [build_query q_ids q_since q_filters app].
+  rewrite scan_state by (right; intros k Hk; apply (inv_vi _ _ HI); exact Hk).
+  eexists. split; [reflexivity|]. intros s. rewrite elem_of_list_omap. split.
+  - intros (k & Hk & Hs). destruct (st S !! k) as [e|] eqn:He; [|discriminate].
+    unfold in_states in Hs. destruct (bool_decide _) eqn:Hb; [|discriminate]. injection Hs as <-.
+    apply bool_decide_eq_true in Hb. eauto.
+  - intros (k & e & He & <- & Hs). exists k. split.
+    + apply (inv_vi _ _ HI). rewrite He. eauto.
+    + rewrite He. unfold in_states. rewrite bool_decide_eq_true_2 by exact Hs. reflexivity.
+Qed.
+
+(* ---------- shape of outputs ---------- *)
+
+Lemma set_op_out c x now S s0 fresh sz :
+  (exists code, snd (set_op c x now S s0 fresh sz) = RErr code) \/
+  (exists i bc, snd (set_op c x now S s0 fresh sz) = RSetOk i bc).
+Proof.
+  rewrite set_op_eq. cbn zeta. destruct (negb (validate x _)); [left; eexists; reflexivity|].
+  assert (Hu : forall s, (exists code, snd (update_path c x now S s sz) = RErr code) \/
+                         (exists i bc, snd (update_path c x now S s sz) = RSetOk i bc)).
+  { intros s. unfold update_path. destruct (over_size c sz); [left; eexists; reflexivity|].
+    destruct (set_silence _ _ _ _) as [[[S1 ch] ad]|]; [right|left]; repeat eexists. }
+  assert (Hc : forall s prev, (exists code, snd (create_path c x now S s prev fresh sz) = RErr code) \/
+                         (exists i bc, snd (create_path c x now S s prev fresh sz) = RSetOk i bc)).
+  { intros s prev. unfold create_path. destruct (over_count c S); [left; eexists; reflexivity|].
+    destruct (over_size c sz); [left; eexists; reflexivity|].
+    destruct (negb (marshal_ok x _)); [left; eexists; reflexivity|].
+    match goal with |- context [match ?r with Ok _ => _ | _ => _ end] => destruct r as [[S1 bc1]| |] end;
+      try (left; eexists; reflexivity).
+    destruct (set_silence _ _ _ _) as [[[S2 ch] ad]|]; [right|left]; repeat eexists. }
+  destruct (st S !! _) as [p|].
+  - destruct (can_update _ _ _); auto.
+  - destruct (negb (String.eqb _ "")); [left; eexists; reflexivity|auto].
+Qed.
+
+(* ---------- history is immutable under local operations ---------- *)
+
+Definition wf_local (S : store) (o : op) : Prop :=
+  match o with
+  | OSet _ fresh _ | OApiPost _ fresh _ => st S !! fresh = None   (* uuid uniqueness *)
+  | OMerge _ _ _ | OReload _ => False
+  | _ => True
+  end.
+
+Lemma set_op_expired_immutable c x now S s0 fresh sz k p :
+  Inv x S -> st S !! fresh = None -> st S !! k = Some p -> sil_state (m_sil p) now = SExpired ->
+  st (fst (set_op c x now S s0 fresh sz)) !! k = Some p.
+Proof.
+  intros HI Hf Hp Hs. destruct (set_op c x now S s0 fresh sz) as [S' o] eqn:E.
+  destruct (set_op_out c x now S s0 fresh sz) as [[code Ho]|(i & bc & Ho)]; rewrite E in Ho; cbn in Ho; subst o.
+  - apply set_err_unchanged in E. subst S'. exact Hp.
+  - cbn [fst]. assert (Hkf : k <> fresh) by (intros ->; congruence).
+    destruct (st S !! s_id s0) as [q|] eqn:Hq.
+    + destruct (can_update (m_sil q) (norm s0 now) now) eqn:Hc.
+      * apply can_update_iff in Hc.
+        destruct (set_update _ _ _ _ _ _ _ _ _ _ q E (inv_key _ _ HI) Hq Hc) as (_ & H1 & H2 & _).
+        destruct (decide (k = s_id s0)) as [->|Hne]; [|rewrite H2 by exact Hne; exact Hp].
+        exfalso. rewrite Hq in Hp. injection Hp as ->. apply sil_state_expired in Hs.
+        destruct Hc as (_ & [(Ha & _)|(Ha & _)]); lia.
+      * assert (Hn : ~ can_update_spec (m_sil q) (norm s0 now) now) by (rewrite <- can_update_iff; congruence).
+        destruct (set_replace _ _ _ _ _ _ _ _ _ _ q E (inv_key _ _ HI) Hq Hn Hf (inv_marshal _ _ HI _ _ Hq)) as (_ & H1 & _ & H3).
+        destruct (decide (k = s_id s0)) as [->|Hne]; [|rewrite H3 by assumption; exact Hp].
+        rewrite Hq in Hp. injection Hp as ->. rewrite H1, expire_applies_expired by exact Hs. reflexivity.
+    + destruct (set_create _ _ _ _ _ _ _ _ _ _ E (inv_key _ _ HI) Hq Hf) as (_ & _ & _ & _ & H).
+      rewrite H by exact Hkf. exact Hp.
+Qed.
+
+Lemma expire_op_expired_immutable c x now S id k p :
+  Inv x S -> st S !! k = Some p -> sil_state (m_sil p) now = SExpired ->
+  st (fst (expire_op c x now S id)) !! k = Some p.
+Proof.
+  intros HI Hp Hs. unfold expire_op. destruct (st S !! id) as [q|] eqn:Hq.
+  - pose proof (inv_key _ _ HI) as Hk. pose proof (inv_marshal _ _ HI _ _ Hq) as Hm.
+    destruct (beq (sil_state (m_sil q) now) SExpired) eqn:E.
+    + apply (proj1 (beq_true _ _)) in E. unfold expire. rewrite Hq, E. exact Hp.
+    + assert (Hn : sil_state (m_sil q) now <> SExpired) by (intros H; apply (proj2 (beq_true _ _)) in H; congruence).
+      destruct (expire_spec c x now S id q Hk Hq Hn Hm) as (S' & He & Hst & _). rewrite He. cbn [fst]. rewrite Hst.
+      destruct (_ && _); [|exact Hp].
+      destruct (decide (k = id)) as [->|Hne]; [congruence|rewrite lookup_insert_ne by congruence; exact Hp].
+  - unfold expire. rewrite Hq. exact Hp.
+Qed.
+
+(* NO RE-ACTIVATION / IMMUTABLE HISTORY, one step: a silence that is expired at the instant of a local operation
+   is still stored, unchanged, afterwards — unless that operation is a GC at or after its ExpiresAt. *)
+Theorem local_step_expired_immutable c x S now o k p :
+  Inv x S -> wf_local S o -> st S !! k = Some p -> sil_state (m_sil p) now = SExpired ->
+  st (fst (step c x S now o)) !! k = Some p \/
+  (o = OGC /\ m_exp p <= now /\ st (fst (step c x S now o)) !! k = None).
+Proof.
+  intros HI Hwf Hp Hs. destruct o as [s fresh sz|id|b order blen| |ps|order|s fresh sz|id|id]; cbn [step wf_local] in *.
+  - left. apply set_op_expired_immutable; assumption.
+  - left. apply expire_op_expired_immutable; assumption.
+  - contradiction.
+  - rewrite (gc_exact x) by exact HI. rewrite Hp. destruct (now <? m_exp p) eqn:Hl; [left; reflexivity|].
+    right. repeat split; [lia].
+  - left. exact Hp.
+  - contradiction.
+  - left. unfold api_post. destruct (_ <=? _); [exact Hp|]. destruct (_ <? _); [exact Hp|].
+    apply set_op_expired_immutable; assumption.
+  - left. apply expire_op_expired_immutable; assumption.
+  - left. exact Hp.
+Qed.
+
+(* ---------- the invariant is preserved ---------- *)
+
+Lemma st_merge_added_eq now s e : mad (st_merge now s e) = true -> mst (st_merge now s e) = <[m_id e := e]> s.
+Proof.
+  unfold st_merge, mad, mst. destruct (m_exp e <? now); [discriminate|].
+  destruct (s !! m_id e) as [p|]; [destruct (m_upd p <? m_upd e)|]; cbn; try discriminate. reflexivity.
+Qed.
+
+Lemma st_merge_not_added_eq now s e :
+  mad (st_merge now s e) = false ->
+  mst (st_merge now s e) = s \/ (exists p, s !! m_id e = Some p /\ mst (st_merge now s e) = <[m_id e := e]> s).
+Proof.
+  unfold st_merge, mad, mst. destruct (m_exp e <? now); [auto|].
+  destruct (s !! m_id e) as [p|]; [destruct (m_upd p <? m_upd e)|]; cbn; try discriminate; eauto.
+Qed.
+
+Lemma validate_compiles x s : validate x s = true -> compiles x (s_ms s) = true.
+Proof.
+  unfold validate, compiles. intros H. repeat (apply andb_true_iff in H as [H ?]).
+  destruct (s_ms s) as [|ms0 mss]; [discriminate|]. revert H. generalize (ms0 :: mss). intros l H.
+  rewrite forallb_forall in *. intros ms Hin. specialize (H ms Hin). unfold valid_set in H.
+  destruct ms as [|m ms]; [discriminate|]. apply andb_true_iff in H as [H _].
+  rewrite forallb_forall in *. intros m' Hm. specialize (H m' Hm). unfold valid_matcher in H.
+  apply andb_true_iff in H as [_ H]. destruct (is_re m'); [exact H|reflexivity].
+Qed.
+
+Lemma set_silence_inv x now S e S' ch ad :
+  Inv x S -> set_silence x now S e = Some (S', ch, ad) -> compiles x (s_ms (m_sil e)) = true -> Inv x S'.
+Proof.
+  intros HI. rewrite set_silence_spec. destruct (negb (marshal_ok x (m_sil e))) eqn:Hm; [discriminate|].
+  apply negb_false_iff in Hm. cbn zeta. intros H Hc. injection H as <- _ _.
+  destruct (mad (st_merge now (st S) e)) eqn:Had.
+  - pose proof (st_merge_added _ _ _ Had) as [Hnone _]. rewrite (st_merge_added_eq _ _ _ Had).
+    assert (Hnin : m_id e ∉ map snd (vi S)).
+    { intros Hin. apply (inv_vi _ _ HI) in Hin as [? Hin]. congruence. }
+    constructor; unfold index_silence, with_st, key_ok; cbn [st mi vi ver].
+    + intros k p Hp. apply lookup_insert_Some in Hp as [[<- <-]|[_ Hp]]; [reflexivity|apply (inv_key _ _ HI _ _ Hp)].
+    + intros k. rewrite map_app, elem_of_app. cbn [map snd]. rewrite elem_of_list_singleton.
+      rewrite lookup_insert_is_Some, (inv_vi _ _ HI). change (s_id (m_sil e)) with (m_id e).
+      split.
+      * intros [Heq|[_ Hk]]; [right; symmetry; exact Heq|left; exact Hk].
+      * intros [Hk|Heq]; [|left; symmetry; exact Heq].
+        destruct (decide (m_id e = k)); [left; assumption|right; split; assumption].
+    + intros k. rewrite Hc. change (s_id (m_sil e)) with (m_id e).
+      rewrite !lookup_insert_is_Some, (inv_mi _ _ HI). reflexivity.
+    + rewrite map_app. cbn [map snd]. apply NoDup_app. split; [apply (inv_nodup _ _ HI)|]. split.
+      * intros k Hin Hk. apply elem_of_list_singleton in Hk. subst k. contradiction.
+      * apply NoDup_singleton.
+    + apply Forall_app. split.
+      * eapply Forall_impl; [apply (inv_ver _ _ HI)|]. cbn. intros; lia.
+      * constructor; [cbn; lia|constructor].
+    + intros k p Hp. apply lookup_insert_Some in Hp as [[_ <-]|[_ Hp]]; [exact Hc|apply (inv_comp _ _ HI _ _ Hp)].
+    + intros k p Hp. apply lookup_insert_Some in Hp as [[_ <-]|[_ Hp]]; [exact Hm|apply (inv_marshal _ _ HI _ _ Hp)].
+  - destruct (st_merge_not_added_eq _ _ _ Had) as [->|(p & Hp & ->)].
+    + destruct HI; constructor; assumption.
+    + constructor; unfold with_st, key_ok; cbn [st mi vi ver].
+      * intros k q Hq. apply lookup_insert_Some in Hq as [[<- <-]|[_ Hq]]; [reflexivity|apply (inv_key _ _ HI _ _ Hq)].
+      * intros k. rewrite lookup_insert_is_Some, <- (inv_vi _ _ HI).
+        split.
+        -- intros [Heq|[_ Hk]]; [rewrite <- Heq, Hp; eauto|exact Hk].
+        -- intros Hk. destruct (decide (m_id e = k)); [left; assumption|right; split; assumption].
+      * intros k. rewrite lookup_insert_is_Some, (inv_mi _ _ HI).
+        split.
+        -- intros Hk. destruct (decide (m_id e = k)); [left; assumption|right; split; assumption].
+        -- intros [Heq|[_ Hk]]; [rewrite <- Heq, Hp; eauto|exact Hk].
+      * apply (inv_nodup _ _ HI).
+      * apply (inv_ver _ _ HI).
+      * intros k q Hq. apply lookup_insert_Some in Hq as [[_ <-]|[_ Hq]]; [exact Hc|apply (inv_comp _ _ HI _ _ Hq)].
+      * intros k q Hq. apply lookup_insert_Some in Hq as [[_ <-]|[_ Hq]]; [exact Hm|apply (inv_marshal _ _ HI _ _ Hq)].
+Qed.
+
+Lemma expired_version_ms s now : s_ms (expired_version s now) = s_ms s.
+Proof. unfold expired_version. destruct (sil_state s now); reflexivity. Qed.
+
+Lemma expire_inv c x now S id S' bc : Inv x S -> expire c x now S id = Ok (S', bc) -> Inv x S'.
+Proof.
+  intros HI. unfold expire. destruct (st S !! id) as [p|] eqn:Hp; [|discriminate].
+  assert (Hc : compiles x (s_ms (m_sil (mesh c (expired_version (m_sil p) now)))) = true).
+  { cbn. rewrite expired_version_ms. apply (inv_comp _ _ HI _ _ Hp). }
+  destruct (sil_state (m_sil p) now).
+  3: intros [= <- _]; exact HI.
+  all: destruct (set_silence _ _ _ _) as [[[S1 ch] ad]|] eqn:Hs; [|discriminate];
+    intros [= <- _]; eapply set_silence_inv; eauto.
+Qed.
+
+Lemma expire_op_inv c x now S id : Inv x S -> Inv x (fst (expire_op c x now S id)).
+Proof.
+  intros HI. unfold expire_op. destruct (expire c x now S id) as [[S' bc]| |] eqn:E; cbn; [|exact HI..].
+  eapply expire_inv; eauto.
+Qed.
+
+Lemma set_op_inv c x now S s0 fresh sz : Inv x S -> Inv x (fst (set_op c x now S s0 fresh sz)).
+Proof.
+  intros HI. rewrite set_op_eq. cbn zeta. destruct (negb (validate x _)) eqn:Hv; [exact HI|].
+  apply negb_false_iff, validate_compiles in Hv.
+  assert (Hu : Inv x (fst (update_path c x now S (norm s0 now) sz))).
+  { unfold update_path. destruct (over_size c sz); [exact HI|].
+    destruct (set_silence _ _ _ _) as [[[S1 ch] ad]|] eqn:Hs; [|exact HI]. cbn.
+    eapply set_silence_inv; [exact HI|exact Hs|exact Hv]. }
+  assert (Hc : forall prev, Inv x (fst (create_path c x now S (norm s0 now) prev fresh sz))).
+  { intros prev. unfold create_path. destruct (over_count c S); [exact HI|]. destruct (over_size c sz); [exact HI|].
+    destruct (negb (marshal_ok x _)); [exact HI|].
+    match goal with |- context [match ?r with Ok _ => _ | _ => _ end] => destruct r as [[S1 bc1]| |] eqn:Er end; try exact HI.
+    assert (HI1 : Inv x S1).
+    { destruct prev as [p|]; [|injection Er as <- _; exact HI].
+      destruct (sil_state (m_sil p) now).
+      - eapply expire_inv; [exact HI|exact Er].
+      - eapply expire_inv; [exact HI|exact Er].
+      - injection Er as <- _; exact HI. }
+    destruct (set_silence _ _ _ _) as [[[S2 ch] ad]|] eqn:Hs; [|exact HI1]. cbn.
+    eapply set_silence_inv; [exact HI1|exact Hs|exact Hv]. }
+  destruct (st S !! _) as [p|].
+  - destruct (can_update _ _ _); auto.
+  - destruct (negb (String.eqb _ "")); [exact HI|auto].
+Qed.
+
+Theorem local_step_inv c x S now o : Inv x S -> wf_local S o -> Inv x (fst (step c x S now o)).
+Proof.
+  intros HI Hwf. destruct o as [s fresh sz|id|b order blen| |ps|order|s fresh sz|id|id]; cbn [step wf_local] in *.
+  - apply set_op_inv; exact HI.
+  - apply expire_op_inv; exact HI.
+  - contradiction.
+  - apply gc_preserves_inv; exact HI.
+  - exact HI.
+  - contradiction.
+  - unfold api_post. destruct (_ <=? _); [exact HI|]. destruct (_ <? _); [exact HI|]. apply set_op_inv; exact HI.
+  - apply expire_op_inv; exact HI.
+  - exact HI.
+Qed.
+
+(* ---------- whole histories of local operations ---------- *)
+
+Fixpoint hist_wf (c : cfg) (x : ext) (S : store) (t : Z) (h : list (Z * op)) : Prop :=
+  match h with
+  | [] => True
+  | (now, o) :: r => t <= now /\ wf_local S o /\ hist_wf c x (fst (step c x S now o)) now r
+  end.
+
+Lemma run_store_cons c x S now o h : run_store c x S ((now, o) :: h) = run_store c x (fst (step c x S now o)) h.
+Proof.
+  unfold run_store. cbn [run]. destruct (step c x S now o) as [S1 y]. cbn [fst].
+  destruct (run c x S1 h). reflexivity.
+Qed.
+
+Theorem local_hist_inv c x h : forall S t, Inv x S -> hist_wf c x S t h -> Inv x (run_store c x S h).
+Proof.
+  induction h as [|[now o] h IH]; intros S t HI Hwf; [exact HI|].
+  destruct Hwf as (_ & Hw & Hr). rewrite run_store_cons. eapply IH; [|exact Hr].
+  apply local_step_inv; assumption.
+Qed.
+
+(* all GCs of a history happen before the instant [bound] *)
+Definition gc_before (h : list (Z * op)) (bound : Z) : Prop :=
+  Forall (fun d => snd d = OGC -> fst d < bound) h.
+
+(* NO RE-ACTIVATION / IMMUTABLE HISTORY over histories: once a silence is expired at t, then after ANY history of
+   local operations at instants >= t in which no GC runs at or after its ExpiresAt, it is still stored and
+   unchanged (hence expired at every later instant). By [local_step_expired_immutable] the only other outcome of
+   a step is its collection by a GC at or after ExpiresAt. *)
+Theorem expired_stays c x h : forall S t k p,
+  Inv x S -> hist_wf c x S t h -> st S !! k = Some p -> sil_state (m_sil p) t = SExpired ->
+  gc_before h (m_exp p) -> st (run_store c x S h) !! k = Some p.
+Proof.
+  induction h as [|[now o] h IH]; intros S t k p HI Hwf Hp Hs Hg; [exact Hp|].
+  destruct Hwf as (Ht & Hw & Hr). rewrite run_store_cons.
+  assert (Hs' : sil_state (m_sil p) now = SExpired) by (apply sil_state_expired in Hs; apply sil_state_expired; lia).
+  apply Forall_cons in Hg as [Hg1 Hg]. cbn in Hg1.
+  destruct (local_step_expired_immutable c x S now o k p HI Hw Hp Hs') as [H|(-> & Hle & _)].
+  - eapply IH; [apply local_step_inv; eassumption|exact Hr|exact H|exact Hs'|exact Hg].
+  - specialize (Hg1 eq_refl). lia.
+Qed.
+
+(* ---------- nothing but GC removes a silence ---------- *)
+
+Lemma set_silence_keeps x now S e S' ch ad k :
+  set_silence x now S e = Some (S', ch, ad) -> is_Some (st S !! k) -> is_Some (st S' !! k).
+Proof.
+  intros H [p Hp]. apply set_silence_st in H as (-> & _). rewrite st_merge_lookup.
+  destruct (decide (k = m_id e)) as [->|]; [|rewrite Hp; eauto].
+  unfold lww. rewrite Hp. destruct (m_exp e <? now); [eauto|]. destruct (m_upd p <? m_upd e); eauto.
+Qed.
+
+Lemma expire_keeps c x now S id S' bc k : expire c x now S id = Ok (S', bc) -> is_Some (st S !! k) -> is_Some (st S' !! k).
+Proof.
+  unfold expire. destruct (st S !! id) as [p|]; [|discriminate].
+  destruct (sil_state (m_sil p) now).
+  3: intros [= <- _]; auto.
+  all: destruct (set_silence _ _ _ _) as [[[S1 ch] ad]|] eqn:Hs; [|discriminate];
+    intros [= <- _]; eapply set_silence_keeps; eauto.
+Qed.
+
+Lemma set_op_keeps c x now S s0 fresh sz k : is_Some (st S !! k) -> is_Some (st (fst (set_op c x now S s0 fresh sz)) !! k).
+Proof.
+  intros Hk. rewrite set_op_eq. cbn zeta. destruct (negb (validate x _)); [exact Hk|].
+  assert (Hu : is_Some (st (fst (update_path c x now S (norm s0 now) sz)) !! k)).
+  { unfold update_path. destruct (over_size c sz); [exact Hk|].
+    destruct (set_silence _ _ _ _) as [[[S1 ch] ad]|] eqn:Hs; [|exact Hk]. cbn. eapply set_silence_keeps; eauto. }
+  assert (Hc : forall prev, is_Some (st (fst (create_path c x now S (norm s0 now) prev fresh sz)) !! k)).
+  { intros prev. unfold create_path. destruct (over_count c S); [exact Hk|]. destruct (over_size c sz); [exact Hk|].
+    destruct (negb (marshal_ok x _)); [exact Hk|].
+    match goal with |- context [match ?r with Ok _ => _ | _ => _ end] => destruct r as [[S1 bc1]| |] eqn:Er end; try exact Hk.
+    assert (Hk1 : is_Some (st S1 !! k)).
+    { destruct prev as [p|]; [|injection Er as <- _; exact Hk].
+      destruct (sil_state (m_sil p) now).
+      - eapply expire_keeps; [exact Er|exact Hk].
+      - eapply expire_keeps; [exact Er|exact Hk].
+      - injection Er as <- _; exact Hk. }
+    destruct (set_silence _ _ _ _) as [[[S2 ch] ad]|] eqn:Hs; [|exact Hk1]. cbn. eapply set_silence_keeps; eauto. }
+  destruct (st S !! s_id (norm s0 now)) as [p|].
+  - destruct (can_update _ _ _); auto.
+  - destruct (negb (String.eqb _ "")); [exact Hk|auto].
+Qed.
+
+Lemma expire_op_keeps c x now S id k : is_Some (st S !! k) -> is_Some (st (fst (expire_op c x now S id)) !! k).
+Proof.
+  intros Hk. unfold expire_op. destruct (expire c x now S id) as [[S' bc]| |] eqn:E; cbn; [|exact Hk..].
+  eapply expire_keeps; eauto.
+Qed.
+
+(* RETENTION: a stored silence stays stored (hence queryable by id) across every local operation other than GC,
+   and across a GC unless its ExpiresAt has been reached *)
+Theorem local_step_keeps c x S now o k :
+  Inv x S -> wf_local S o -> is_Some (st S !! k) ->
+  is_Some (st (fst (step c x S now o)) !! k) \/
+  (o = OGC /\ exists e, st S !! k = Some e /\ m_exp e <= now).
+Proof.
+  intros HI Hwf Hk. destruct o as [s fresh sz|id|b order blen| |ps|order|s fresh sz|id|id]; cbn [step wf_local] in *.
+  - left. apply set_op_keeps; exact Hk.
+  - left. apply expire_op_keeps; exact Hk.
+  - contradiction.
+  - rewrite (gc_exact x) by exact HI. destruct Hk as [e He]. rewrite He.
+    destruct (now <? m_exp e) eqn:Hl; [left; eauto|right]. split; [reflexivity|]. exists e. split; [reflexivity|lia].
+  - left. exact Hk.
+  - contradiction.
+  - left. unfold api_post. destruct (_ <=? _); [exact Hk|]. destruct (_ <? _); [exact Hk|]. apply set_op_keeps; exact Hk.
+  - left. apply expire_op_keeps; exact Hk.
+  - left. exact Hk.
+Qed.
+
+(* API layer: a silence that ends at or before its start, or in the past, is rejected and nothing changes *)
+Theorem api_post_past_rejected c x now S s fresh sz :
+  s_end s <= s_start s \/ s_end s < now ->
+  exists code, api_post c x now S s fresh sz = (S, RErr code) /\ (code = "badrange" \/ code = "pastend").
+Proof.
+  intros H. unfold api_post. destruct (s_end s <=? s_start s) eqn:E1; [eauto|].
+  destruct (s_end s <? now) eqn:E2; [eauto|]. lia.
+Qed.
+
+Theorem api_post_err_unchanged c x now S s fresh sz S' code :
+  api_post c x now S s fresh sz = (S', RErr code) -> S' = S.
+Proof.
+  unfold api_post. destruct (_ <=? _); [intros [= <-]; reflexivity|]. destruct (_ <? _); [intros [= <-]; reflexivity|].
+  apply set_err_unchanged.
+Qed.
